@@ -155,6 +155,14 @@ func (c *checker) runHistory(h []int, all bool) (key string, what string, pruned
 		if nm == "empty-block" {
 			pl = &letter{Name: nm}
 		}
+		if c.w.opts.KeyManager {
+			for _, l := range kmLetters() {
+				if l.Name == nm {
+					l := l
+					pl = &l
+				}
+			}
+		}
 		if pl == nil {
 			return "", "harness: unknown prefix letter " + nm, false
 		}
@@ -433,8 +441,13 @@ func runHistories(r *ev.Run) {
 		// a key manager runtime (no TEE hardware) served by all nodes: node re-registrations with every kind of
 		// enclave init response, master / ephemeral secret publication, policy updates; before and at 26.1
 		variants = append(variants, chain.GenesisOptions{KeyManager: true, EpochInterval: 2, NodeExpiration: 30, Escrow: []uint64{3000, 3000, 3000}})
-		if prop == "C10" || r.Thorough() {
+		if r.Thorough() {
 			variants = append(variants, chain.GenesisOptions{KeyManager: true, EpochInterval: 3, NodeExpiration: 30, Escrow: []uint64{3000, 3000, 3000}, Feature261: true})
+		}
+		if prop == "C10" || r.Thorough() {
+			// a CHURP scheme exists and all nodes applied for the next handoff
+			variants = append(variants, chain.GenesisOptions{KeyManager: true, EpochInterval: 3, NodeExpiration: 30, Escrow: []uint64{3000, 3000, 3000}, Feature261: true,
+				Prefix: []string{"km-churp-create(nodes=[],honest)", "km-churp-apply(nodes=[0 1 2],honest)"}})
 		}
 	}
 	if prop == "C05" || prop == "C10" || (prop == "C01" && r.Thorough()) {
